@@ -86,8 +86,8 @@ def opStep (st : St) (op : List String) : Option St :=
   -- is; an unusable one (version or generation 0) is re-initialised in place.  Not combined with `x` in one session.
   | ["r"] =>
     if !st.alts.isEmpty then none
-    else if st.seg.openable then some { st with out := "r" :: st.out }
-    else some { st with seg := { version := 1, gen := 0, cur := Record.empty }, out := "r" :: st.out }
+    else if st.seg.openable then some { st with out := s!"r {st.seg.gen}" :: st.out }
+    else some { st with seg := { version := 1, gen := 0, cur := Record.empty }, out := "r 0" :: st.out }
   | ["g", v] => v.toNat?.map fun n =>
     match st.alts.getLast? with
     | some a => { st with alts := st.alts.dropLast ++ [{ a with gen := n % 65536 }], out := "p" :: st.out }
@@ -160,7 +160,7 @@ def line (args impl : List String) : String :=
       let outs : List (ClientIn × Option Outcome) := pairs.map fun (xo, la) => (xo.1, parseOut la.2)
       if outs.any (fun p => p.2.isNone) then
         -- an answer that is not a result of now() at all (e.g. an error kind the client does not have)
-        s!"{model} | C05:FAILS C06:FAILS C14:FAILS C12:FAILS C17:FAILS C03:FAILS C01:FAILS oracle:unparsed | session"
+        s!"{model} | C05:FAILS C06:FAILS C14:FAILS C12:FAILS C17:FAILS C03:FAILS C01:FAILS C04:FAILS C11:FAILS oracle:unparsed | session"
       else
         let os : List (ClientIn × Outcome) := outs.filterMap fun p => p.2.map fun o => (p.1, o)
         let v05 := DriverH.verdict "C05" (os.any fun p => C05.applicable p.1) (os.all fun p => !C05.applicable p.1 || C05.Holds p.1 p.2)
@@ -177,6 +177,12 @@ def line (args impl : List String) : String :=
         -- C01 (and C12): a record published after the clock was read is not applied to that reading
         let hasQw := ops.any (fun o => o.head? == some "qw" || o.head? == some "cqw")
         let v01 := DriverH.verdict "C01" hasQw (pairs.all fun p => p.2.2 == (nowText p.1.2).splitOn " ")
+        -- C04 / C11: an orderly restart takes a usable segment over as it is: the generation word goes on from where it was (never back
+        -- to 0), and every client — attached before or opened after — is answered as if nothing had happened
+        let hasR := ops.any (fun o => o.head? == some "r")
+        let rOk := (DriverH.splitSemi impl).filter (fun g => g.head? == some "r") == (st.out.reverse.filter (fun s => s.startsWith "r ")).map (fun s => s.splitOn " ")
+        let v04 := DriverH.verdict "C04" hasR (rOk && pairs.all fun p => p.2.2 == (nowText p.1.2).splitOn " ")
+        let v11 := DriverH.verdict "C11" hasR rOk
         let multi := (if qs.length ≥ 4 then ["multiCall"] else []) ++ (if hasQw then ["pubDuringCall"] else [])
         let aged := if os.any (fun p => decide (p.1.mono.toNs - p.1.r.asOf.toNs > (5000000000 : Int)) && (p.1.r.status != .unknown)) then ["aged"] else []
         let bad := if os.any (fun p => decide (p.1.r.drift ≥ 1000000000)) then ["badDrift"] else []
@@ -186,6 +192,6 @@ def line (args impl : List String) : String :=
           (if ops.any (fun o => o.head? == some "r") then ["restarted"] else []) ++
           (if ops.any (fun o => o.head? == some "qn" || o.head? == some "cqn") then ["repeated"] else [])
         let growth := if os.any (fun p => decide (p.1.mono.toNs > p.1.r.asOf.toNs ∧ p.1.r.drift > 0 ∧ p.1.r.drift < 1000000000 ∧ C05.exactGrowth p.1 ≥ 1)) then ["growth"] else []
-        s!"{model} | {v05} {v06} {v14} {v12} {v17} {v03} {v01} | {String.intercalate "," (["session"] ++ multi ++ aged ++ bad ++ blur ++ odd ++ growth)}"
+        s!"{model} | {v05} {v06} {v14} {v12} {v17} {v03} {v01} {v04} {v11} | {String.intercalate "," (["session"] ++ multi ++ aged ++ bad ++ blur ++ odd ++ growth)}"
 
 end ClockBound.DriverS
